@@ -102,6 +102,20 @@ func c12Syms() []c12Sym {
 			{"struct-literal-field", "", "let bx: Box = { .F = " + n + " };"},
 			{"match-subject", "", "match " + n + " {\n        1 => {\n        }\n        _ => {\n        }\n    }"},
 			{"nested-call-arg", "", "takeI(addI(" + n + ", 2));"},
+			{"parenthesised", "", "let a: i32 = (" + n + ") * 2;"},
+			{"unary-minus", "", "let a: i32 = -" + n + ";"},
+			{"cast-operand", "", "let a := " + n + " as i64;"},
+			{"range-end", "", "for ii in 0.." + n + " {\n        takeI(ii);\n    }"},
+			{"range-start", "", "for ii in " + n + "..9 {\n        takeI(ii);\n    }"},
+			{"index-expression", "", "let ar: []i32 = [1, 2, 3, 4, 5, 6, 7, 8, 9];\n    let a := ar[" + n + "];"},
+			{"element-assignment-rhs", "", "let ar: []i32 = [1, 2, 3];\n    ar[0] = " + n + ";"},
+			{"compound-assignment-rhs", "", "let acc: i32 = 0;\n    acc += " + n + ";"},
+			{"catch-fallback", "fn mayFail(k: i32) -> str ! i32 {\n    if k == 0 {\n        return \"zero\"!;\n    }\n    return k;\n}\n", "let a := mayFail(0) catch " + n + ";"},
+			{"while-condition", "", "let wv: i32 = 0;\n    while wv < " + n + " {\n        wv = wv + 100;\n    }"},
+			{"closure-body", "", "let cf := fn() -> i32 {\n        return " + n + ";\n    };"},
+		}
+		if !call {
+			s = append(s, c12Site{"print-argument", "", "io::Println(" + n + ");"})
 		}
 		if call {
 			s = append(s, c12Site{"fn-value", "", "let fv := NAME;"})
@@ -346,6 +360,9 @@ func checkC12(c *Ctx) error {
 			bad = "exported-access-rejected"
 		}
 		if bad != "" {
+			if !c.ConfirmBudget() {
+				continue
+			}
 			cli, _ := c.ConfirmCLI(dirs[i])
 			still := false
 			switch bad {
